@@ -87,6 +87,14 @@ CHECKS["C12"] = dict(level="exploration", ref="6/C12",
         "invariants of each lattice reached.",
    note=DEC_NOTE, technique=TECH + "; invariant monitors over N-best iterators and forward-backward on scheduled lattices")
 
+CHECKS["C14"] = dict(level="exploration", ref="6/C14",
+   text="decoder_result_json requested at plan-chosen instants (before any utterance, right after start_utt, on filler-only / partial / final results), levels 0/1/2, start offsets "
+        "incl. negative and 1e6, frame rates 50/100/125, with hostile word spellings (quotes, backslashes, control bytes, non-ASCII UTF-8) injected through decoder_add_word and "
+        "forced into results by alignment texts: strict RFC 8259 validation, strlen+1 = allocation size (sanitizer allocator interface), field-by-field agreement with "
+        "hypothesis / segmentation / alignment read at the same instant. Borderline for the technique: the schedule decides the instants; the format clauses ride along.",
+   note=DEC_NOTE + " Word spellings are valid UTF-8 (invalid byte sequences cannot be represented in JSON at all).",
+   technique=TECH + "; strict JSON validation and interface agreement at scheduled instants")
+
 NA = {
  "C02": "pure function of grammar, dictionary, model and frame scores: no schedule, fault, history or crash point; needs an independent max-plus reference (differential testing), another technique family",
  "C05": "pure function of one JSGF text (a compiler-correctness property): nothing to schedule or fault; language enumeration against a JSGF interpreter is the right tool",
